@@ -87,6 +87,12 @@ func (d *dumper) val(v reflect.Value) {
 			d.b.WriteString(v.Type().String())
 			return
 		}
+		if v.Type().Elem().Size() == 0 {
+			// all zero-size objects share one address: identity means nothing
+			d.b.WriteString("&z:")
+			d.val(v.Elem())
+			return
+		}
 		p := v.UnsafePointer()
 		if id, ok := d.ptrs[p]; ok {
 			d.b.WriteString("&#")
@@ -224,8 +230,11 @@ func (c *copier) copyVal(v reflect.Value) reflect.Value {
 		if v.IsNil() {
 			return reflect.Zero(v.Type())
 		}
+		if v.Type().Elem().Size() == 0 {
+			return reflect.New(v.Type().Elem())
+		}
 		p := v.UnsafePointer()
-		if nv, ok := c.memo[p]; ok {
+		if nv, ok := c.memo[p]; ok && nv.Type() == v.Type() {
 			return nv
 		}
 		if v.Type() == privateRRType {
